@@ -29,13 +29,14 @@ class OrderCase(Case):
         self.id = cid
         self.method, self.speculative, self.split = method, speculative, split
         self.nkinds, self.lkinds, self.L, self.N, self.npts, self.batch = tuple(nkinds), tuple(lkinds), L, N, npts, batch
-        self.gradfree = method in NO_GRADIENT
+        self.gradfree = method.lower().rpartition("/")[2] in NO_GRADIENT
         self.family = "request-order/" + ("gradient-free" if self.gradfree else "gradient") + ("/constraints" if nkinds or lkinds else "")
         d = {
             "variables": {"initial_values": [0.0] * N, "lower_bounds": -100.0, "upper_bounds": 100.0},
             "optimizer": {"method": method, "speculative": speculative, "split_evaluations": split, "parallel": bool(batch)},
         }
-        if method in ("bfgs", "cg", "newton-cg", "cobyla"):
+        base = method.lower().rpartition("/")[2]
+        if base in ("bfgs", "cg", "newton-cg", "cobyla"):
             d["variables"].pop("lower_bounds"), d["variables"].pop("upper_bounds")
         if self.nkinds:
             d["nonlinear_constraints"] = {"lower_bounds": [0.0] * len(nkinds), "upper_bounds": [1.0] * len(nkinds)}
@@ -56,13 +57,14 @@ class OrderCase(Case):
                         self.rows.append((src, k, -1, "hi", "ineq"))
         # callables: fun, jac (gradient methods), per row fun (+ jac unless cobyla / gradient-free)
         self.callables = ["fun"] + ([] if self.gradfree else ["jac"])
-        if method == "differential_evolution":
+        self.base = base
+        if base == "differential_evolution":
             if self.nkinds:
                 self.callables.append(("nlfun",))
         else:
             for i in range(len(self.rows)):
                 self.callables.append(("cfun", i))
-                if method != "cobyla":
+                if base != "cobyla":
                     self.callables.append(("cjac", i))
 
     def describe(self):
@@ -176,7 +178,7 @@ class OrderCase(Case):
             if "jac" in rec and rec["jac"]:
                 table["jac"] = rec["jac"]
             cons = rec.get("constraints") or []
-            if self.method == "differential_evolution":
+            if self.base == "differential_evolution":
                 for c in cons:
                     if type(c).__name__ == "NL":
                         table[("nlfun",)] = c.kw["fun"]
@@ -185,7 +187,7 @@ class OrderCase(Case):
                     table[("cfun", i)] = c["fun"]
                     if "jac" in c:
                         table[("cjac", i)] = c["jac"]
-            out = {"steps": [], "log": log, "ncons": len(cons), "types": [c["type"] for c in cons] if self.method != "differential_evolution" else []}
+            out = {"steps": [], "log": log, "ncons": len(cons), "types": [c["type"] for c in cons] if self.base != "differential_evolution" else []}
             for t in range(self.L):
                 code = int(inp["req"][t])
                 ci, pi = divmod(code, self.npts)
@@ -219,7 +221,7 @@ class OrderCase(Case):
             return [("no_internal_exception:" + type(oc.exc).__name__, SB(False))]
         out = oc.value
         props = []
-        if self.method != "differential_evolution":
+        if self.base != "differential_evolution":
             props.append(("constraint_rows_as_configured", SB(out["types"] == [r[4] for r in self.rows])))
         B = max(1, self.batch)
         for t, (name, pi, ret, n0) in enumerate(out["steps"]):
@@ -298,6 +300,14 @@ def build_cases(tier):
         add(method="nelder-mead", speculative=spec, split=split, L=L)
         add(method="cobyla", speculative=spec, split=split, nkinds=("upper",), L=L)
     add(method="slsqp", nkinds=("both", "eq"), lkinds=("upper",), L=2)
+    # linear constraints only: the constraint callables never go through the objective's cache
+    add(method="slsqp", lkinds=("both",), L=3)
+    add(method="cobyla", lkinds=("lower", "upper"), L=3, speculative=True)
+    add(method="SLSQP", lkinds=("eq",), L=3, npts=3)
+    # method names as users may spell them
+    add(method="Nelder-Mead", speculative=True, L=2)
+    add(method="scipy/cobyla", speculative=True, nkinds=("lower",), L=2)
+    add(method="scipy/Powell", speculative=True, split=True, L=2)
     add(method="slsqp", speculative=True, nkinds=("eq",), lkinds=("lower",), L=3)
     add(method="l-bfgs-b", split=True, L=3, npts=3)
     add(method="differential_evolution", nkinds=("lower",), L=3)
